@@ -290,6 +290,11 @@ const VALUES: &[(&str, &str)] = &[
     ("say \"hi\"", "double-quote"),
     ("</e><e>", "ill-formed-injection"),
     ("1", "number-text"),
+    // values whose references must survive being written and read back
+    ("<c x=\"a&amp;b\" y=\"&amp;lt;\" z=\"q&#10;r\"/>", "element-attribute-references"),
+    ("]]&#62;", "cdend-by-reference"),
+    ("a&#10;b&#9;c", "whitespace-references"),
+    ("x]]&gt;y", "cdend-by-entity"),
 ];
 
 const SETNS: &[(&str, &[&str])] = &[("none", &[]), ("p=v", &["--setns", "xmlns:p=v"]), ("default=u", &["--setns", "xmlns=u"]), ("bad-setns", &["--setns", "p=v"])];
@@ -619,7 +624,7 @@ impl Check for C17C {
     }
     fn meta(&self) -> Meta {
         Meta {
-            rule: "the real xe and xq binaries (compiled from /repo/xpath/examples as bins of the harness crate) run as processes: stdin document, arguments from the product of 13 documents (attributes, nested same-named elements, comments/PIs, namespaces, DTD default + references + CDATA, XML declaration, values with quotes) x 34 selecting paths (selections by string-value / text node / node count, axes across the DOCTYPE, elements, nested selections, one element, attributes, the document node, empty selection, scalars, text / comment / PI nodes, unions, filters, prefixed names, nested predicates, a variable) x 19 replacement values (empty, text, references, elements with attributes / nesting / prefixes, mixed, CDATA, comment, PI, ill-formed, quote characters) x {--no-indent, pretty} x {no --setns, prefix, default, malformed}; plus unusable expressions and ill-formed documents for both tools. Oracle: reference parser -> reference XPath selection -> children of exactly the selected element / attribute / document nodes replaced by the parsed value -> expected document; xe's compact stdout is parsed back WITH THE REFERENCE PARSER and must denote it; xq's compact stdout must be one serialization per selected node in document order (elements parsed back and compared as trees), or the scalar. Unusable input (ill-formed document or value, bad expression, non-node result or unsupported node kind for xe): non-zero exit, a message on stderr, no panic, no signal. Non-trivial = the reference expects a result (not a refusal).",
+            rule: "the real xe and xq binaries (compiled from /repo/xpath/examples as bins of the harness crate) run as processes: stdin document, arguments from the product of 13 documents (attributes, nested same-named elements, comments/PIs, namespaces, DTD default + references + CDATA, XML declaration, values with quotes) x 34 selecting paths (selections by string-value / text node / node count, axes across the DOCTYPE, elements, nested selections, one element, attributes, the document node, empty selection, scalars, text / comment / PI nodes, unions, filters, prefixed names, nested predicates, a variable) x 23 replacement values (empty, text, references, elements with attributes / nesting / prefixes, mixed, CDATA, comment, PI, ill-formed, quote characters) x {--no-indent, pretty} x {no --setns, prefix, default, malformed}; plus unusable expressions and ill-formed documents for both tools. Oracle: reference parser -> reference XPath selection -> children of exactly the selected element / attribute / document nodes replaced by the parsed value -> expected document; xe's compact stdout is parsed back WITH THE REFERENCE PARSER and must denote it; xq's compact stdout must be one serialization per selected node in document order (elements parsed back and compared as trees), or the scalar. Unusable input (ill-formed document or value, bad expression, non-node result or unsupported node kind for xe): non-zero exit, a message on stderr, no panic, no signal. Non-trivial = the reference expects a result (not a refusal).",
             bounds_quick: "every combination in which at most 2 of the 5 factors (document, path, value, --setns, indentation) differ from their default value; xq: at most 3 of 4",
             bounds_thorough: "the full product",
             assumptions: &["pretty-printed output is only checked for exit status and absence of a crash (the statement constrains the compact output)", "number results: Rust's or XPath's spelling of NaN and the infinities are both accepted"],
